@@ -104,6 +104,17 @@ def _names(node) -> frozenset:
     return frozenset(out)
 
 
+def _const_path(node) -> Optional[str]:
+    """A constant-like expression: literal or dotted name of a module-level constant / enum member."""
+    if isinstance(node, ast.Constant):
+        return repr(node.value)
+    if isinstance(node, ast.Attribute):
+        b = _const_path(node.value) if isinstance(node.value, ast.Attribute) else \
+            node.value.id if isinstance(node.value, ast.Name) and node.value.id not in ("self", "cls") else None
+        return None if b is None else f"{b}.{node.attr}"
+    return None
+
+
 def always_raises(stmts: Sequence[ast.stmt]) -> bool:
     if not stmts:
         return False
@@ -148,6 +159,20 @@ class Tracer:
         self.deferred: List[Tuple[str, str, Tuple[str, ...]]] = []
         # every predicate a branch was taken on, as (base expression, kind of test) - see gate_of
         self.gates: Set[Tuple[str, Any]] = set()
+        # instance attributes holding a stream object (self.X = BufferWriter(..) somewhere in the class): a window
+        # that outlives the call and is shared by re-entrant calls on the same spec object
+        self.shared_streams: Set[str] = set()
+        self.shared_used: Set[str] = set()
+        if cls is not None:
+            for c in repo.mro(cls):
+                for m in c.methods.values():
+                    for n in ast.walk(m.node):
+                        if isinstance(n, ast.Assign) and isinstance(n.value, ast.Call) and \
+                                self._callee_last(n.value) in STREAM_CTORS:
+                            for t in n.targets:
+                                if isinstance(t, ast.Attribute) and isinstance(t.value, ast.Name) and t.value.id == "self":
+                                    self.shared_streams.add(t.attr)
+        self._state_tab: Optional[Dict[str, Dict[str, ast.AST]]] = None
 
     # ------------------------------------------------------------------ entry
     def run(self, fi: FuncInfo, stream_param: Optional[str] = None, self_is_stream=False,
@@ -194,6 +219,9 @@ class Tracer:
                     if last == SER_MODULE_SUFFIX:
                         return node.attr
                     return f"{last}.{node.attr}"
+            ov = self._obj_attr(node, st)
+            if ov is not None:
+                return ov if isinstance(ov, str) else f"<{ov[0]}:{ov[1]}>" if ov[0] == "stream" else f"<{ov[0]}>"
             b = self.sym(node.value, st, fr)
             if node.attr == "__class__" and b == "@":
                 return "@"
@@ -249,7 +277,103 @@ class Tracer:
             v = st.env.get(node.id)
             if isinstance(v, tuple) and v[0] == "stream":
                 return v[1]
+        if isinstance(node, ast.Attribute) and isinstance(node.value, ast.Name):
+            if st.env.get(node.value.id) == "@" and node.attr in self.shared_streams:
+                self.shared_used.add(node.attr)
+                return "inner"
+            v = self._obj_attr(node, st)
+            if isinstance(v, tuple) and v[0] == "stream":
+                return v[1]
         return None
+
+    @staticmethod
+    def _obj_attr(node, st: St):
+        """Value of `name.attr` when name is a callable object built on this path (captured constructor argument)."""
+        if isinstance(node, ast.Attribute) and isinstance(node.value, ast.Name):
+            v = st.env.get(node.value.id)
+            if isinstance(v, tuple) and v[0] == "obj":
+                return dict(v[1]).get(node.attr)
+        return None
+
+    # ------------------------------------------------------------------ state attributes set once in __init__
+    def _state_tables(self) -> Dict[str, Dict[str, ast.AST]]:
+        """{attr: {constant: condition}} for attributes that __init__ sets to distinct constants in an if/elif/else
+        chain over other attributes of self (a flag pair folded into a state enum): testing the attribute is testing
+        the condition under which it got that value."""
+        if self._state_tab is not None:
+            return self._state_tab
+        self._state_tab = {}
+        init = self.repo.lookup_method(self.cls, "__init__") if self.cls is not None else None
+        if init is None:
+            return self._state_tab
+        a = init.node.args
+        local = {p.arg for p in list(a.posonlyargs) + list(a.args) + list(a.kwonlyargs)} - {"self"}
+        local |= {n.id for n in ast.walk(init.node) if isinstance(n, ast.Name) and isinstance(n.ctx, ast.Store)}
+        rows: Dict[str, List[Tuple[str, List[Tuple[ast.AST, bool]]]]] = {}
+
+        def const_store(stmts):
+            out = []
+            for s_ in stmts:
+                if isinstance(s_, ast.Assign) and len(s_.targets) == 1 and isinstance(s_.targets[0], ast.Attribute) \
+                        and isinstance(s_.targets[0].value, ast.Name) and s_.targets[0].value.id == "self":
+                    k = _const_path(s_.value)
+                    if k is not None:
+                        out.append((s_.targets[0].attr, k))
+            return out
+
+        def chain(node: ast.If, prefix):
+            if {n.id for n in ast.walk(node.test) if isinstance(n, ast.Name)} & local:
+                return
+            for attr, k in const_store(node.body):
+                rows.setdefault(attr, []).append((k, prefix + [(node.test, True)]))
+            neg = prefix + [(node.test, False)]
+            if len(node.orelse) == 1 and isinstance(node.orelse[0], ast.If):
+                chain(node.orelse[0], neg)
+            else:
+                for attr, k in const_store(node.orelse):
+                    rows.setdefault(attr, []).append((k, neg))
+        for s_ in init.node.body:
+            if isinstance(s_, ast.If):
+                chain(s_, [])
+        # the attribute must be written nowhere else, and to distinct constants
+        for attr, rs in rows.items():
+            n_stores = 0
+            for c in self.repo.mro(self.cls):
+                for m in c.methods.values():
+                    for n in ast.walk(m.node):
+                        if isinstance(n, ast.Attribute) and isinstance(n.ctx, ast.Store) and n.attr == attr:
+                            n_stores += 1
+            if n_stores != len(rs) or len({k for k, _ in rs}) != len(rs) or len(rs) < 2:
+                continue
+            tab = {}
+            for k, conds in rs:
+                vals = [t if pol else ast.UnaryOp(op=ast.Not(), operand=t) for t, pol in conds]
+                tab[k] = vals[0] if len(vals) == 1 else ast.BoolOp(op=ast.And(), values=vals)
+            self._state_tab[attr] = tab
+        return self._state_tab
+
+    def derive(self, test, st: St, fr: Frame):
+        """Rewrite tests of a state attribute (see _state_tables) into the conditions that define the state."""
+        if self.cls is None:
+            return test
+        if isinstance(test, ast.BoolOp):
+            vals = [self.derive(v, st, fr) for v in test.values]
+            return test if all(a is b for a, b in zip(vals, test.values)) else ast.BoolOp(op=test.op, values=vals)
+        if isinstance(test, ast.UnaryOp) and isinstance(test.op, ast.Not):
+            v = self.derive(test.operand, st, fr)
+            return test if v is test.operand else ast.UnaryOp(op=ast.Not(), operand=v)
+        if isinstance(test, ast.Compare) and len(test.ops) == 1 and \
+                isinstance(test.ops[0], (ast.Is, ast.IsNot, ast.Eq, ast.NotEq)):
+            for l, r in ((test.left, test.comparators[0]), (test.comparators[0], test.left)):
+                if isinstance(l, ast.Attribute) and isinstance(l.value, ast.Name) and st.env.get(l.value.id) == "@":
+                    tab = self._state_tables().get(l.attr)
+                    k = _const_path(r)
+                    if tab and k in tab:
+                        cond = tab[k]
+                        if isinstance(test.ops[0], (ast.IsNot, ast.NotEq)):
+                            cond = ast.UnaryOp(op=ast.Not(), operand=cond)
+                        return cond
+        return test
 
     # ------------------------------------------------------------------ path conditions / guards
     def _k(self, e, fr, st=None):
@@ -260,6 +384,7 @@ class Tracer:
         return (fr.fid, ast.dump(e))
 
     def tv(self, test, st: St, fr: Frame) -> Optional[bool]:
+        test = self.derive(test, st, fr)
         hit = st.pc.get(self._k(test, fr, st))
         if hit is not None:
             return hit[0]
@@ -290,9 +415,18 @@ class Tracer:
             return bool(test.value)
         return None
 
-    def assume(self, test, pol: bool, st: St, fr: Frame):
+    def assume(self, test, pol: bool, st: St, fr: Frame, _depth=0):
+        test = self.derive(test, st, fr)
         for e, p in atoms(test, pol):
             st.pc[self._k(e, fr, st)] = (p, _names(e), self.sym(e, st, fr))
+            # unit propagation: not (A and B) with A known true gives not B;  (A or B) with A known false gives B
+            if isinstance(e, ast.BoolOp) and _depth < 4 and \
+                    (isinstance(e.op, ast.And) and not p or isinstance(e.op, ast.Or) and p):
+                want = isinstance(e.op, ast.Or)
+                vals = [(v, self.tv(v, st, fr)) for v in e.values]
+                unknown = [v for v, t in vals if t is None]
+                if len(unknown) == 1 and not any(t is want for _, t in vals):
+                    self.assume(unknown[0], want, st, fr, _depth + 1)
             if isinstance(e, ast.Compare) and len(e.ops) == 1 and isinstance(e.ops[0], (ast.Is, ast.IsNot)) \
                     and isinstance(e.comparators[0], ast.Constant) and e.comparators[0].value is None:
                 k = self._k(e.left, fr, st)
@@ -513,6 +647,14 @@ class Tracer:
                     st.tok = st.tok + (("O",),)      # a local window is opened on this path
             elif isinstance(value, ast.Name) and isinstance(st.env.get(value.id), tuple):
                 val = st.env[value.id]
+            elif isinstance(value, ast.Call) and self._returns_fresh_stream(value, st, fr):
+                val = ("stream", "inner")            # a helper that builds the window for this call
+                if self.record in (None, "inner"):
+                    st.tok = st.tok + (("O",),)
+            elif isinstance(value, ast.Attribute) and self.stream_of(value, st) is not None:
+                val = ("stream", self.stream_of(value, st))
+                if self.record in (None, val[1]):
+                    st.tok = st.tok + (("O",),)
             elif isinstance(value, ast.Call) and isinstance(value.func, ast.Attribute) and value.func.attr == "tell" \
                     and not value.args and self.stream_of(value.func.value, st) is not None:
                 # a remembered stream position: seeking back to it un-consumes what was read since
@@ -951,6 +1093,8 @@ class Tracer:
         f = node.func
         attr = f.attr if isinstance(f, ast.Attribute) else None
         recv_stream = self.stream_of(f.value, st) if attr else None
+        if recv_stream is None and attr and isinstance(f.value, ast.Attribute):
+            recv_stream = self.stream_of(f.value, st)
         arg_streams = [self.stream_of(a, st) for a in node.args] + [self.stream_of(k.value, st) for k in node.keywords]
         arg_streams = [s for s in arg_streams if s is not None]
         if recv_stream is not None:
@@ -967,6 +1111,9 @@ class Tracer:
                     self._event(st, recv_stream, ("B", self.sym(n, st, fr)), node, fr)
             elif attr in NEUTRAL_STREAM_METHODS:
                 pass
+            elif attr == "clear" and not node.args:
+                if self.record in (None, recv_stream):
+                    st.tok = st.tok + (("O",),)      # the window is emptied: what follows is a fresh window
             elif attr == "seek":
                 self._seek(node, recv_stream, st, fr)
             else:
@@ -985,6 +1132,9 @@ class Tracer:
             return [st]
         if self._is_sentinel_iter_call(node) and "iter" not in st.env:
             return [st]          # the callable runs when the iterator is pulled (see sentinel_iter), not "later"
+        cc = self._callable_class(node, st, fr)
+        if cc is not None:
+            return self._deferred_callable(cc, node, st, fr)
         inl = self.try_inline(node, st, fr)
         if inl is not None:
             return inl
@@ -1050,7 +1200,7 @@ class Tracer:
     def _resolve(self, node: ast.Call, st: St, fr: Frame):
         f = node.func
         if isinstance(f, ast.Attribute):
-            if isinstance(f.value, ast.Name) and st.env.get(f.value.id) == "@":
+            if (isinstance(f.value, ast.Name) and st.env.get(f.value.id) == "@") or self._obj_attr(f.value, st) == "@":
                 base = self.cls or fr.dcls
                 return self.repo.lookup_method(base, f.attr) if base is not None else None
             if self._is_super(f.value) and fr.dcls is not None:
@@ -1068,7 +1218,83 @@ class Tracer:
                         return g
         return None
 
+    def _returns_fresh_stream(self, node: ast.Call, st: St, fr: Frame) -> bool:
+        m = self._resolve(node, st, fr)
+        if m is None or isinstance(m, tuple):
+            return False
+        rets = [r for r in ast.walk(m.node) if isinstance(r, ast.Return)]
+        return bool(rets) and all(isinstance(r.value, ast.Call) and self._callee_last(r.value) in STREAM_CTORS for r in rets)
+
+    def _callable_class(self, node: ast.Call, st: St, fr: Frame) -> Optional[ClassInfo]:
+        f = node.func
+        if isinstance(f, ast.Name) and f.id in st.env:
+            return None
+        from .core import ap as _ap
+        path = _ap(f)
+        if not path or not path.replace(".", "").replace("_", "").isalnum():
+            return None
+        ci = self.repo.resolve_class(path, fr.mod)
+        if ci is None or self.repo.lookup_method(ci, "__call__") is None:
+            return None
+        if self.repo.lookup_method(ci, "serialize") is not None:
+            return None
+        return ci
+
+    def _deferred_callable(self, ci: ClassInfo, node: ast.Call, st: St, fr: Frame) -> List[St]:
+        """An object with __call__ built where a closure would be: its constructor arguments are what the closure
+        captured, its __call__ is the deferred body."""
+        init = self.repo.lookup_method(ci, "__init__")
+        bound: Dict[str, Any] = {}
+        refs = []
+        if init is not None:
+            a = init.node.args
+            params = (list(a.posonlyargs) + list(a.args))[1:]
+            for i, arg in enumerate(node.args):
+                if isinstance(arg, ast.Starred):
+                    break
+                if i < len(params):
+                    bound[params[i].arg] = self._argval(arg, st, fr)
+            for k in node.keywords:
+                if k.arg:
+                    bound[k.arg] = self._argval(k.value, st, fr)
+        for arg in list(node.args) + [k.value for k in node.keywords]:
+            if self.stream_of(arg, st) is not None:
+                refs.append(arg.id if isinstance(arg, ast.Name) else self.sym(arg, st, fr))
+        attrs: Dict[str, Any] = {}
+        if init is not None:
+            for n in ast.walk(init.node):
+                if isinstance(n, (ast.Assign, ast.AnnAssign)):
+                    tgt = n.targets[0] if isinstance(n, ast.Assign) else n.target
+                    if isinstance(tgt, ast.Attribute) and isinstance(tgt.value, ast.Name) and tgt.value.id == "self" \
+                            and isinstance(n.value, ast.Name) and n.value.id in bound:
+                        attrs[tgt.attr] = bound[n.value.id]
+        self.deferred.append((ci.name, f"{fr.mod.rel}:{node.lineno}", tuple(sorted(refs))))
+        call = self.repo.lookup_method(ci, "__call__")
+        key = call.full
+        if fr.depth >= self.max_depth or key in fr.stack:
+            return [st]
+        a = call.node.args
+        params = list(a.posonlyargs) + list(a.args)
+        cenv: Dict[str, Any] = {p.arg: "<param>" for p in params[1:] + list(a.kwonlyargs)}
+        if params:
+            cenv[params[0].arg] = ("obj", tuple(sorted(attrs.items(), key=lambda kv: kv[0])))
+        fr2 = self._frame(call, ci, call.module, fr.depth + 1, fr.stack + (key,))
+        saved = st.env
+        st.env = cenv
+        out = []
+        for r in self.block(call.node.body, [st], fr2):
+            if r.status in ("n", "ret"):
+                r.status = "n"
+            elif r.status != "raise":
+                continue
+            r.env = dict(saved)
+            out.append(r)
+        return out or [st]
+
     def _argval(self, a, st: St, fr: Frame):
+        ov = self._obj_attr(a, st)
+        if ov is not None:
+            return ov
         if isinstance(a, ast.Name) and isinstance(st.env.get(a.id), tuple):
             return st.env[a.id]
         return self.sym(a, st, fr)
